@@ -691,7 +691,7 @@ Fixpoint run_stmts (ex : db -> stmt -> db * list firing * outcome) (ss : list st
     refused by the guard; bodies fired at fuel [S f] run their statements with fuel [f] in a trigger context. *)
 Fixpoint exec (fuel : nat) (ctx : tctx) (d : db) (s : stmt) : db * list firing * outcome :=
   match fuel with
-  | O => step_dml (fun _ _ _ d' => (d', Some (0, true))) false ctx d s
+  | O => step_dml (fun _ _ _ d' => (d', None)) false ctx d s   (* the runner is never called: the guard refuses *)
   | S f =>
       step_dml (fun tr o n d' => run_stmts (exec f (Some (o, n))) (t_body tr) 0 d') true ctx d s
   end.
